@@ -397,6 +397,10 @@ def main():
     c13_zoo.run_zoo(run)
     import c13_params
     c13_params.run_params(run, drv)
+    import c13_lazy
+    c13_lazy.run_lazy(run, drv, ask, rng)
+    import c13_install
+    c13_install.run_install(run, drv, ask, rng, err_word)
     run.finish("proof")
 
 
